@@ -926,6 +926,8 @@ struct PreTrack {
     snapshots: Vec<Vec<u8>>,
     /// the codec finished: the logical input is complete
     whole_input: bool,
+    /// a drain inside the caller's script removed more than the stable prefix held
+    overdrain: bool,
 }
 
 impl PreTrack {
@@ -1038,8 +1040,7 @@ impl CodecWExec {
                     let by_bytes = matches!(it, PreItem::Advance(_));
                     let (_, took, removed) = drain_on(&mut iov.consumer(), k, by_bytes);
                     if took.len() != removed {
-                        // reported by the next describe through the snapshot oracle as well
-                        self.pre.snapshots.push(vec![]);
+                        self.pre.overdrain = true; // reported by `pre_note`
                     }
                     self.drained.extend_from_slice(&took);
                 }
@@ -1169,6 +1170,10 @@ impl CodecWExec {
     fn pre_note(&mut self, stable: &[u8], so: &mut StepOut) {
         if !self.pre.active {
             return;
+        }
+        if self.pre.overdrain {
+            self.pre.overdrain = false;
+            so.violations.push("C04 a drain in the caller's script removed more bytes than were consumable".into());
         }
         let mut snap = self.drained.clone();
         snap.extend_from_slice(stable);
